@@ -69,5 +69,13 @@ SPEC = dict(
              self_attrs=RESULT_SELF, state=STATE, returns=Schedule),
         dict(py="JobShopSchedulingResult.makespan", gen="Result_makespan", property=True, params=[], extra_params=RESULT_EXTRA,
              self_attrs=RESULT_SELF, state=STATE, returns=Opt(Z)),
+        # the two constant answers of is_scheduled (which CLASS an entry has is the data representation: snd p = None / Some t)
+        dict(py="UnscheduledOperation.is_scheduled", gen="Unscheduled_is_scheduled", property=True, params=[("self", "self", SchedOp)], returns=BOOL),
+        dict(py="ScheduledOperation.is_scheduled", gen="Scheduled_is_scheduled", property=True, params=[("self", "self", SchedOp)], returns=BOOL),
+        # the two read-only accessors of the result object: what the constructor stored
+        dict(py="JobShopSchedulingResult.problem_instance", gen="Result_problem_instance", property=True, params=[], extra_params=RESULT_EXTRA,
+             self_attrs=RESULT_SELF, returns=Instance),
+        dict(py="JobShopSchedulingResult.schedule", gen="Result_schedule", property=True, params=[], extra_params=RESULT_EXTRA,
+             self_attrs=RESULT_SELF, returns=Schedule),
     ],
 )
